@@ -20,6 +20,7 @@ type sendRec struct {
 	enc  []byte
 	b    bpv7.Bundle
 	ok   bool
+	at   time.Time
 }
 
 // mockCLA is a scripted convergence sender: Send serialises the bundle (as real CLAs do), parses it back with
@@ -53,7 +54,7 @@ func (m *mockCLA) Send(b bpv7.Bundle) error {
 	enc := append([]byte{}, w.Bytes()...)
 	pb, perr := bpv7.ParseBundle(bytes.NewReader(enc))
 	verif.Assert(perr == nil, "a bundle handed to a convergence layer parses as a valid bundle")
-	*m.log = append(*m.log, sendRec{peer: m.addr, enc: enc, b: pb, ok: !m.fail})
+	*m.log = append(*m.log, sendRec{peer: m.addr, enc: enc, b: pb, ok: !m.fail, at: time.Now()})
 	if m.fail {
 		return errors.New("mock: send failed")
 	}
